@@ -422,9 +422,169 @@ func checkWakeup(c *checkCtx) {
 			c.violation(fmt.Sprintf("wakeup-%d", cs.Idx), map[string]interface{}{"case": cs, "violations": res.viol}, "%s", res.viol[0])
 		}
 	}
+	// directed: wake-up taking the slow path (send channel) while the control connection is congested
+	nc := c.pick(4, 60)
+	for i := 0; i < nc; i++ {
+		if os.Getenv("VERIF_C05_ONLY") != "" {
+			break
+		}
+		res := runWakeupCongested(c, i)
+		c.eval(1)
+		points += res.points
+		c.count("quiescent points judged", int64(res.points))
+		c.count("congested-control-connection executions (wake-up queued behind a full send channel for longer than the write timeout)", int64(res.backlog))
+		if res.inconcl != "" {
+			c.inconclusiveCase(fmt.Sprintf("congested-%d", i), res.inconcl)
+		}
+		if res.backlog > 0 {
+			c.nontrivial(fmt.Sprintf("congested/%s", res.sig))
+		}
+		if len(res.viol) > 0 {
+			c.violation(fmt.Sprintf("congested-%d", i), map[string]interface{}{"index": i, "violations": res.viol}, "%s", res.viol[0])
+		}
+	}
 	if points == 0 {
 		c.noObservation("no quiescent point could be judged")
 	}
+}
+
+// runWakeupCongested: the producer's wake-up has to take the slow path (another writer owns the control connection) while the
+// send channel is full, for longer than ConnectionWriteTimeout; then the connection recovers. The harness plays the other
+// writers: it owns the session's `writing` flag, as a writer stuck in a slow socket write does, and fills the send channel with
+// empty control messages (the send loop writes nothing for them). Whatever Flush returned, at the next quiescent point —
+// producer returned, send channel drained, nobody writing, event loop fenced twice — a non-empty receive queue has no
+// notification in flight any more and is stranded.
+func runWakeupCongested(c *checkCtx, idx int) (res wkResult) {
+	rng := caseRand(c.seed, 260000+idx)
+	wt := time.Duration(120+rng.Intn(120)) * time.Millisecond
+	memfd := rng.Intn(2) == 0
+	res.sig = fmt.Sprintf("%v/%d", memfd, wt.Milliseconds()/40)
+	p, err := newSessionPair(pairOpt{memfd: memfd, sizes: smallSizes(64, 50, 1024, 50), clientCfg: func(cf *Config) { cf.ConnectionWriteTimeout = wt }})
+	if err != nil {
+		res.inconcl = "pair: " + err.Error()
+		return
+	}
+	defer p.close()
+	violate := func(format string, a ...interface{}) {
+		if len(res.viol) < 5 {
+			res.viol = append(res.viol, fmt.Sprintf(format, a...))
+		}
+	}
+	slow := make(chan struct{}, 4)
+	k := newCtl("congested", rng.Int63())
+	k.on(vpWakeSlow, func(obj interface{}, n int64) {
+		if obj == interface{}(p.client) {
+			select {
+			case slow <- struct{}{}:
+			default:
+			}
+		}
+	})
+	k.install()
+	defer uninstallCtl()
+	cl, err := p.client.OpenStream()
+	if err != nil {
+		res.inconcl = "open: " + err.Error()
+		return
+	}
+	var ferrs int64
+	if !wkFlushRetry(cl, make([]byte, 16), &ferrs) {
+		res.inconcl = "first flush failed"
+		return
+	}
+	if sv := p.serverStream(cl.StreamID(), 5*time.Second); sv == nil {
+		res.inconcl = "server stream did not appear"
+		return
+	}
+	srvQ := p.server.queueManager.recvQueue
+	if !waitUntil(5*time.Second, func() bool { return fenceOnce(5*time.Second) && srvQ.size() == 0 && !srvQ.consumerIsWorking() }) {
+		res.inconcl = "consumer did not go idle"
+		return
+	}
+	// another writer owns the control connection ...
+	if !waitUntil(2*time.Second, func() bool { return atomic.CompareAndSwapUint32(&p.client.writing, 0, 1) }) {
+		res.inconcl = "could not take the writing flag"
+		return
+	}
+	released := false
+	release := func() {
+		if !released {
+			released = true
+			atomic.StoreUint32(&p.client.writing, 0)
+			asyncNotify(p.client.notifyContinueWriteCh)
+		}
+	}
+	defer release()
+	// ... and the send channel is full of queued control messages
+	full := 0
+	for t0 := time.Now(); full < 3 && time.Since(t0) < 3*time.Second; {
+	fill:
+		for {
+			select {
+			case p.client.sendCh <- sendReady{}:
+			default:
+				break fill
+			}
+		}
+		time.Sleep(2 * time.Millisecond)
+		if len(p.client.sendCh) == cap(p.client.sendCh) {
+			full++
+		} else {
+			full = 0
+		}
+	}
+	if full < 3 {
+		res.inconcl = "send channel could not be filled"
+		return
+	}
+	done := make(chan error, 1)
+	go func() {
+		cl.BufferWriter().WriteBytes(make([]byte, 16))
+		done <- cl.Flush(false)
+	}()
+	select {
+	case <-slow:
+	case err := <-done:
+		res.inconcl = fmt.Sprintf("the producer did not take the slow path (Flush returned %v)", err)
+		return
+	case <-time.After(3 * time.Second):
+		res.inconcl = "the producer did not reach the slow path"
+		return
+	}
+	// congestion lasts longer than the write timeout, then the connection recovers
+	time.Sleep(3 * wt)
+	release()
+	var ferr error
+	select {
+	case ferr = <-done:
+	case <-time.After(15 * time.Second):
+		res.inconcl = "Flush did not return within 15 s after the connection recovered"
+		return
+	}
+	res.backlog = 1
+	quiet := waitUntil(10*time.Second, func() bool {
+		if len(p.client.sendCh) != 0 || atomic.LoadUint32(&p.client.writing) != 0 {
+			return false
+		}
+		time.Sleep(5 * time.Millisecond) // the send loop may hold one message between taking it and claiming the connection
+		return len(p.client.sendCh) == 0 && atomic.LoadUint32(&p.client.writing) == 0 && fenceOnce(10*time.Second)
+	})
+	if !quiet || !fence() || p.client.IsClosed() || p.server.IsClosed() {
+		res.inconcl = "quiescence after the congestion could not be established"
+		return
+	}
+	res.points++
+	if n := srvQ.size(); n > 0 {
+		time.Sleep(20 * time.Millisecond)
+		fence()
+		if n2 := srvQ.size(); n2 > 0 {
+			violate("stranded after a congested control connection: the producer's Flush returned (%v), the send channel is drained, nobody is writing and the "+
+				"event loop was fenced, but the server's receive queue still holds %d (then %d) element(s) (workingFlag=%v, polling sent=%d received=%d, write timeout %v)",
+				ferr, n, n2, srvQ.consumerIsWorking(), atomic.LoadUint64(&p.client.stats.sendPollingEventCount),
+				atomic.LoadUint64(&p.server.stats.recvPollingEventCount), wt)
+		}
+	}
+	return
 }
 
 // ---------------------------------------------------------------------------------------------
